@@ -773,3 +773,137 @@ def check_compare_languages(ctx, rep, f):
     else:
         rep.holds(RULE + '.K4', f, 'def ' + f.name, 'on all {} pairs of languages over four words: feedback exactly when the languages differ, the named word lies in the difference it is reported for (right polarity)'.format(runs))
         rep.holds(RULE + '.K5', f, 'def ' + f.name, 'the named word is of minimal length in its difference on all {} pairs'.format(runs))
+
+
+def check_k10(ctx, rep, f, roles: Roles, rule=RULE + '.K10'):
+    """check_dfa_minimal: the languages are compared only up to a length bound, so the number of states is what tells a
+    minimal answer from a non-minimal one AND from a smaller automaton that agrees on all short words.  The state sets
+    are touched only through a comparison of their sizes: on each of the three orderings (answer smaller / equal /
+    larger than the quotient) the size tests of the checker (its own and those of the local helpers it hands the two
+    automata to) are evaluated, and feedback must be produced exactly when the sizes differ."""
+    from .models import resolve_alias
+    vr = roles.var_roles(f)
+    MIN = ('dfa_quotient', 'dfa_minimize', 'dfa_hopfcroft')
+    # the reference is minimised:  D = dfa_quotient(D) / reference = dfa_quotient(parse_dfa(dfa))
+    role0 = {}
+    for st in walk_no_nested(f.node):
+        if isinstance(st, ast.Assign) and len(st.targets) == 1 and isinstance(st.targets[0], ast.Name) and isinstance(st.value, ast.Call) \
+                and ctx.callee_name(f, st.value) in MIN:
+            role0[st.targets[0].id] = 'reference'
+    if not role0:
+        return 0
+    for name, rs in vr.items():
+        if rs == {'answer'} and name not in role0:
+            role0[name] = 'answer'
+
+    def analyse(g, role):
+        """size tests of g: (if statement, feedback in body, feedback in else, evaluator)"""
+        pair = {}
+        for st in walk_no_nested(g.node):
+            if isinstance(st, ast.Assign) and len(st.targets) == 1 and isinstance(st.targets[0], ast.Tuple) and isinstance(st.value, ast.Tuple) \
+                    and len(st.targets[0].elts) == len(st.value.elts):
+                for t0, v0 in zip(st.targets[0].elts, st.value.elts):
+                    if isinstance(t0, ast.Name):
+                        pair[t0.id] = v0
+
+        def size_term(e, depth=0):
+            if isinstance(e, ast.Call) and isinstance(e.func, ast.Name) and e.func.id == 'len' and len(e.args) == 1:
+                a = e.args[0]
+                if isinstance(a, ast.Attribute) and a.attr == 'Q' and isinstance(a.value, ast.Name):
+                    return role.get(a.value.id)
+            if isinstance(e, ast.Name) and depth < 4:
+                if e.id in pair:
+                    return size_term(pair[e.id], depth + 1)
+                r = resolve_alias(g, e)
+                if r is not e:
+                    return size_term(r, depth + 1)
+            return None
+
+        def ev(e, va, vb, depth=0):
+            if isinstance(e, ast.BoolOp):
+                vals = [ev(v, va, vb, depth) for v in e.values]
+                return all(vals) if isinstance(e.op, ast.And) else any(vals)
+            if isinstance(e, ast.UnaryOp) and isinstance(e.op, ast.Not):
+                return not ev(e.operand, va, vb, depth)
+            if isinstance(e, ast.Compare):
+                vals = []
+                for x in [e.left] + list(e.comparators):
+                    t = size_term(x)
+                    if t is None:
+                        raise ValueError(u(x))
+                    vals.append(va if t == 'answer' else vb)
+                ops = {ast.Eq: lambda p, q: p == q, ast.NotEq: lambda p, q: p != q, ast.Lt: lambda p, q: p < q, ast.LtE: lambda p, q: p <= q,
+                       ast.Gt: lambda p, q: p > q, ast.GtE: lambda p, q: p >= q}
+                if any(type(o) not in ops for o in e.ops):
+                    raise ValueError(u(e))
+                return all(ops[type(o)](p, q) for o, p, q in zip(e.ops, vals, vals[1:]))
+            if isinstance(e, ast.Name) and depth < 4:
+                r = resolve_alias(g, e)
+                if r is not e:
+                    return ev(r, va, vb, depth + 1)
+            raise ValueError(u(e))
+
+        def appends(stmts):
+            return any(isinstance(c, ast.Call) and isinstance(c.func, ast.Attribute) and c.func.attr in ('append', 'extend') and isinstance(c.func.value, ast.Name)
+                       for s0 in stmts for c in ast.walk(s0)) or any(isinstance(s0, ast.AugAssign) and isinstance(s0.target, ast.Name) for s0 in stmts)
+        out = []
+        for st in walk_no_nested(g.node):
+            if not isinstance(st, ast.If):
+                continue
+            def terms(e, depth=0):
+                ts = set()
+                for x in ast.walk(e):
+                    t = size_term(x)
+                    if t is not None:
+                        ts.add(t)
+                return ts
+            if terms(st.test) != {'answer', 'reference'}:
+                continue
+            out.append((g, st, appends(st.body), appends(st.orelse), ev))
+        return out
+
+    tests = analyse(f, role0)
+    # local helpers that are handed both automata
+    for c in ctx.prog.calls_in(f):
+        cal = ctx.callee(f, c)
+        if cal is None or cal is f or not (cal.parent is f or cal.module is f.module):
+            continue
+        if c.keywords or len(c.args) > len(cal.pos_params):
+            continue
+        role1 = {}
+        for p0, a0 in zip(cal.pos_params, c.args):
+            if isinstance(a0, ast.Name) and a0.id in role0:
+                role1[p0.arg] = role0[a0.id]
+        if set(role1.values()) == {'answer', 'reference'}:
+            tests += analyse(cal, role1)
+    if not tests:
+        # is there any size of a state set anywhere in the checker?  if so the form is not recognised; if not, nothing compares sizes
+        units = [f] + list(f.nested.values())
+        any_len = any(isinstance(x, ast.Call) and isinstance(x.func, ast.Name) and x.func.id == 'len' and x.args and isinstance(x.args[0], ast.Attribute) and x.args[0].attr == 'Q'
+                      for g in units for x in ast.walk(g.node))
+        calls_out = any(ctx.callee(f, c) is not None and ctx.callee(f, c).module is f.module and ctx.callee(f, c).parent is None and not ctx.callee(f, c).name.startswith(('parse_', 'print_'))
+                        and any(isinstance(a0, ast.Name) and a0.id in role0 for a0 in c.args) for c in ctx.prog.calls_in(f))
+        if any_len or calls_out:
+            rep.undecided(rule, f, 'def ' + f.name, 'sizes of state sets are used, but not in a recognised comparison of the answer with the minimised reference')
+        else:
+            rep.violates(rule, f, 'def ' + f.name, 'the number of states of the answer is never compared with that of the minimised reference: the languages are compared only up to the length bound, so a non-minimal answer (and a smaller automaton that agrees on the short words) gets OK')
+        return 1
+    try:
+        for (va, vb, what) in ((1, 2, 'fewer states than'), (2, 2, 'as many states as'), (3, 2, 'more states than')):
+            fb = False
+            for g, st, in_body, in_else, ev in tests:
+                v = ev(st.test, va, vb)
+                if (v and in_body) or (not v and in_else):
+                    fb = True
+            want = va != vb
+            if fb != want:
+                rep.violates(rule, tests[0][0], tests[0][1], 'for an answer with {} the minimised reference the size test{} {} feedback: {}'.format(
+                    what, 's' if len(tests) > 1 else '', 'produces' if fb else 'produces no',
+                    'the languages are compared only up to the length bound, so an automaton with too few states that agrees on all short words is accepted as the minimal DFA' if va < vb
+                    else ('a non-minimal answer is accepted' if va > vb else 'a correct answer is rejected')))
+                return 1
+    except ValueError as e:
+        rep.undecided(rule, tests[0][0], tests[0][1], 'size test outside the fragment: {}'.format(e))
+        return 1
+    rep.holds(rule, tests[0][0], tests[0][1], 'feedback is produced exactly when the number of states of the answer differs from that of the minimised reference (three orderings evaluated)')
+    return 1
